@@ -132,9 +132,9 @@ def configs(tier):
                  data=dict(sizes=[2, 3], push=[1], inmodes=["ack"], sof=1)),
             dict(name="data-m2", mps=2, gap=1, pace=1, gran="xfer", reqs=["SLC"], depth=7, pre=["SA33", "SC1"],
                  data=dict(sizes=[0, 1, 2], push=[0, 1], inmodes=["ack", "lost", "noack"], feed=2, rep=1, in3=1)),
-            dict(name="data-m2-gap", mps=2, gap=3, pace=2, gran="xfer", reqs=["VIN"], depth=7, pre=["SC1"],
+            dict(name="data-m2-gap", mps=2, gap=3, pace=2, gran="xfer", reqs=["VIN"], depth=6, pre=["SC1"],
                  data=dict(sizes=[0, 1, 2], push=[0, 1], inmodes=["ack", "lost"], feed=3, rep=1, sof=1)),
-            dict(name="data-m3", mps=3, gap=2, pace=1, gran="xfer", reqs=[], depth=7, pre=["SC1"],
+            dict(name="data-m3", mps=3, gap=2, pace=1, gran="xfer", reqs=[], depth=6, pre=["SC1"],
                  data=dict(sizes=[1, 2, 3], push=[0, 1], inmodes=["ack", "lost", "noack"], feed=3, sof=1)),
             dict(name="data-m4-pace", mps=4, gap=1, pace=2, gran="xfer", reqs=["SLC"], depth=6, pre=["SA33", "SC1"],
                  data=dict(sizes=[0, 1, 3, 4], push=[0, 1], burst=4, inmodes=["ack", "lost"], rep=1)),
